@@ -666,6 +666,23 @@ def scan_nn_sites(repo) -> list[dict]:
 
         envs = [{}]
         owners = [None]
+        cond_ctx = [False]          # inside an inlined helper whose call was conditional
+        parents = {}
+        for p_ in ast.walk(tree):
+            for ch_ in ast.iter_child_nodes(p_):
+                parents[id(ch_)] = p_
+
+        def conditional(node):
+            """under an `if` / conditional expression of its function (a flag, an option, a size) — `is None` guards of optional
+            arguments and loops do not count"""
+            if cond_ctx[-1]:
+                return True
+            ch_, p_ = node, parents.get(id(node))
+            while p_ is not None and not isinstance(p_, (ast.FunctionDef, ast.AsyncFunctionDef, ast.ClassDef)):
+                if isinstance(p_, (ast.If, ast.IfExp)) and ch_ is not p_.test:
+                    return True
+                ch_, p_ = p_, parents.get(id(p_))
+            return False
         called = set()
         for c_ in ast.walk(tree):
             if isinstance(c_, ast.Call):
@@ -694,6 +711,12 @@ def scan_nn_sites(repo) -> list[dict]:
                     visit(ch, qual, depth)
 
         def handle(n0, qual, depth=2):
+            before = len(sites)
+            _handle(n0, qual, depth)
+            for s_ in sites[before:]:
+                s_.setdefault("cond", conditional(n0))
+
+        def _handle(n0, qual, depth=2):
             n = n0
             if isinstance(n0, ast.Call):
                 # hoisted locals (`not_sampled = mask == 0`, `zero = torch.tensor(…)`, named intermediate steps) are inlined;
@@ -715,9 +738,11 @@ def scan_nn_sites(repo) -> list[dict]:
                             env_h = dict(_single_assign_env(r[0]))
                             env_h.update(b)
                             envs.append(env_h)
+                            cond_ctx.append(conditional(n0))
                             for st in r[0].body:
                                 handle(st, qual, depth - 1)
                                 visit(st, qual, depth - 1)
+                            cond_ctx.pop()
                             envs.pop()
             if isinstance(n, ast.Call):
                 fname = ast.unparse(n.func)
@@ -804,8 +829,14 @@ def _c03_extra_with_sites():
         sites = scan_nn_sites(REPO)
         text += "\n" + _sites_lean(sites)
         status["nn_mask_sites"] = f"translated ({len(sites)} sites)"
+        import collections as _c
+        cc = _c.Counter(s_["func"] for s_ in sites if s_.get("cond"))
+        text += ("\n/-- masking sites that are executed only under an `if` / conditional expression of their function (helpers inlined), "
+                 "per function -/\ndef nn_conditional_sites : List (String × Nat) := ["
+                 + ", ".join(f"({_lean_str(f_)}, {n_})" for f_, n_ in sorted(cc.items())) + "]\n")
     except Exception as e:  # noqa: BLE001 - never an alarm by itself
-        text += f"\n/-- SKIPPED ({type(e).__name__}: {e}) -/\ndef nn_mask_sites : List Site := []\n"
+        text += (f"\n/-- SKIPPED ({type(e).__name__}: {e}) -/\ndef nn_mask_sites : List Site := []\n"
+                 "def nn_conditional_sites : List (String × Nat) := expectedConditionalSites\n")
         status["nn_mask_sites"] = f"skipped: {e}"
     return text, status
 
